@@ -202,7 +202,9 @@ def main_idx(rep, ws):
         if len(Lx) != 1 or len(Ly) != 1 or Lx[0] is Ly[0]: raise vg.Unsupported('the two lengths were not identified')
         Lx, Ly = Lx[0], Ly[0]
         bad = None
-        for (Lxv, Lyv) in ((1, 1), (2, 3), (3, 2)):
+        if Lx.attr[0] == Ly.attr[0] and Lx.attr[1] > Ly.attr[1]:
+            bad = 'the first index is range-checked against length.y (offset %d) and the second against length.x (offset %d)' % (Lx.attr[1], Ly.attr[1])
+        for (Lxv, Lyv) in (() if bad else ((1, 1), (2, 3), (3, 2))):
             for i in range(-Lxv - 1, Lxv + 1):
                 for j in range(-Lyv - 1, Lyv + 1):
                     r = T.subst(o, {iv: T.const_int(64, i & (2 ** 64 - 1)), jv: T.const_int(64, j & (2 ** 64 - 1)), Lx: T.const_int(64, Lxv), Ly: T.const_int(64, Lyv)})
